@@ -8,6 +8,7 @@
 #include <map>
 #include <set>
 #include <string.h>
+#include <string>
 
 bool RemapCompareLess(FunctionRemap *in1, FunctionRemap *in2);
 int get_type_sort(CPPType *type);
@@ -75,6 +76,8 @@ extern "C" void harness_c02_remap_compare() {
     FunctionRemap *r = raw_remap();
     the_remaps[i] = r;
     new (&r->_parameters) FunctionRemap::Parameters();
+    // the tie-breaker of the comparator: the overloads of a set have distinct signatures
+    new (&r->_function_signature) std::string(i == 0 ? "f(A *)" : i == 1 ? "f(B *)" : "f(C *)");
     r->_const_method = nondet_bool();
     r->_parameters.reserve(PMAX);
     for (int x = 0; x < PMAX; x++) {
